@@ -88,7 +88,7 @@ def _bounded_mul(left: Any, right: Any) -> Any:
             raise ValueError("Result of * too large")
     return operator.mul(left, right)
 
-def _bounded_factorial(n: Any) -> Any:
+def _bounded_factorial(n: Any, /) -> Any:
     """math.factorial that refuses arguments too large to compute in bounded time (also when used as key=...)."""
     if isinstance(n, int) and not isinstance(n, bool) and n > MAX_FACTORIAL_ARG:
         raise ValueError("factorial() argument too large")
@@ -104,7 +104,7 @@ def _bounded_round(number: Any, ndigits: Any = None) -> Any:
     return round(number, ndigits)
 
 
-def _bounded_sum(iterable: Any, start: Any = 0) -> Any:
+def _bounded_sum(iterable: Any, /, start: Any = 0) -> Any:
     """sum that concatenates list/tuple items in linear time and refuses results too long to build in bounded time."""
     if isinstance(start, (list, tuple)):
         kind = list if isinstance(start, list) else tuple
